@@ -7,11 +7,12 @@
 // node's location L
 //     starts where the FIRST taken token starts, ends inside the taken tokens (not before the end of the first, not after the
 //     end of the last), is a forward span, and reports file / line / column of the first taken token          (node_at)
-// Two things the code really does and the contracts therefore say (both reported as findings, not "fixed" in the spec):
+// One thing the code really does and the contracts therefore say (reported as a finding, not "fixed" in the spec):
 //   * L need not END at the last taken token: the location of a call `f(x, y)` is the location of the NAME `f` only
-//     (Expression::location of FunctionCall), so every expression whose last operand is a call ends early;
-//   * a bit cast `cast e` reports the line / column of its OPERAND e (second token), while its span starts at `cast`
-//     (parse_singular_expression combines the operand's location with the keyword's, operand first)  -> line_index
+//     (Expression::location of FunctionCall), so every expression whose last operand is a call ends early.
+// (A second finding of the first version - `cast e` reported the line / column of its OPERAND while its span started at the
+//  keyword - was a genuine violation and is repaired in the repository (ed22e30): a bit cast now obeys the uniform rule, and the
+//  special case `line_index` is gone from this specification.)
 // An Err(error) carries one of the parser's four located errors; its location is a forward span that does not end after the last token
 // that was lexed; an UnexpectedEndOfFile points AT the last token
 // of the file (location == last_location == location of the last token), never past it.                         (err_at)
@@ -63,8 +64,6 @@ pub proof fn lemma_took_one(t0: Tokens, t1: Tokens)
 	if t0.tokens@.len() > 1 { assert(t1.tokens@[t1.tokens@.len() - 1] == t0.tokens@[t0.tokens@.len() - 1]); }
 }
 pub open spec fn first_loc(t: Tokens) -> Location { t.tokens@[0].location }
-// the token whose line a node reports: the first one - except behind a `cast` keyword (see the header)
-pub open spec fn line_index(t: Tokens) -> int { if peeked(t) == Some(Token::Cast) { 1 } else { 0 } }
 pub open spec fn node_at(t0: Tokens, t1: Tokens, l: Location, line_tok: int) -> bool {
 	&&& took(t0, t1, 1)
 	&&& forward(l)
